@@ -56,12 +56,43 @@ def parseEnv (payload : Json) : R Env := do
     | _ => .error "bad stdlib row"
   return { fs := roots, stdlib := rows }
 
+/-- optional `dirs` (search directories as spelled, absolute, as segment lists) and `links` (link ↦
+target, absolute segment lists): the symbolic-link view (`Locator.Mounts`, site = the pinned one) -/
+def parseMounts (payload : Json) : R (Option Mounts) :=
+  match payload.getObjVal? "dirs" with
+  | .error _ => .ok none
+  | .ok d => do
+    let dirs ← (← asArr d).mapM asComps
+    let links ← (← asArr (← field payload "links")).mapM fun row => do
+      match (← asArr row) with
+      | [l, t] => return ((← asComps l), (← asComps t))
+      | _ => .error "bad link row"
+    return some { rv := resolveLinks links (2 * links.length + 2), site := resolveSite, dirs := dirs }
+
+def absStr (p : Path) : String := "/" ++ "/".intercalate (p.map String.ofList)
+
+def jAbs : Option Path → Json
+  | none => Json.null
+  | some p => Json.str (absStr p)
+
+/-- a spec, with the absolute origin when the link view is present -/
+def jSpecM (M : Option Mounts) : Option ModSpec → Json
+  | none => Json.null
+  | some s =>
+    match M with
+    | none => jSpec (some s)
+    | some m => Json.mkObj [("name", jComps s.name), ("origin", jOrigin s.origin), ("abs", jAbs (specAbs m s))]
+
+def jFoundM (M : Option Mounts) : Option (Dotted × ModSpec) → Json
+  | none => Json.null
+  | some (n, s) => Json.mkObj [("module", jComps n), ("spec", jSpecM M (some s))]
+
 def errStr : Spec.ResolveErr → String
   | .noParentPackage => "noParentPackage"
   | .beyondTopLevel => "beyondTopLevel"
 
 /-- one op against the environment, threading the memo of `derive_absolute_module_name` -/
-def step (env : Env) (memo : Memo) (op : Json) : R (Json × Memo) := do
+def step (env : Env) (M : Option Mounts) (memo : Memo) (op : Json) : R (Json × Memo) := do
   let k ← asStr (← field op "k")
   match k with
   | "rel" =>
@@ -79,7 +110,7 @@ def step (env : Env) (memo : Memo) (op : Json) : R (Json × Memo) := do
     | some base =>
       let (a, memo') := deriveAbsM memo isInit base target level
       return (Json.mkObj [("base", jComps base), ("abs", jComps a),
-                          ("found", jFound (findModuleNameAndSpec env a)), ("spec", spec)], memo')
+                          ("found", jFoundM M (findModuleNameAndSpec env a)), ("spec", spec)], memo')
   | "find" =>
     let q ← asComps (← field op "q")
     let lp := Spec.longestPrefix (Spec.existsOnPath env.fs) q
@@ -88,7 +119,7 @@ def step (env : Env) (memo : Memo) (op : Json) : R (Json × Memo) := do
       | some n => match Spec.firstMatch env.fs n with
         | none => Json.null
         | some (i, p) => Json.arr #[Json.num i, jComps p]
-    return (Json.mkObj [("found", jFound (findModuleNameAndSpec env q)), ("specLongest", jOptComps lp),
+    return (Json.mkObj [("found", jFoundM M (findModuleNameAndSpec env q)), ("specLongest", jOptComps lp),
                         ("specFirst", fm)], memo)
   | "path" =>
     let comps ← asComps (← field op "comps")
@@ -96,20 +127,56 @@ def step (env : Env) (memo : Memo) (op : Json) : R (Json × Memo) := do
     let sp := match n with
       | none => none
       | some n => findModuleSpecFast env n
-    return (Json.mkObj [("name", jOptComps n), ("spec", jSpec sp)], memo)
+    return (Json.mkObj [("name", jOptComps n), ("spec", jSpecM M sp)], memo)
+  | "resolve" =>
+    -- the resolver itself, for validation against `os.path.realpath`
+    let p ← asComps (← field op "p")
+    match M with
+    | none => .error "resolve without dirs/links"
+    | some m => return (Json.mkObj [("r", Json.str (absStr (m.rv p)))], memo)
+  | "follow" =>
+    -- locate `name`, enter its file the way a followed import (`spec.origin`) or the star-expansion
+    -- (`Import.origin`) does, derive the module name from the current file, resolve a relative import
+    let m ← match M with
+      | none => .error "follow without dirs/links"
+      | some m => pure m
+    let memo := if (← asBool (← field op "clear")) then [] else memo
+    let name ← asComps (← field op "name")
+    let star ← asBool (← field op "star")
+    let level ← asNat (← field op "level")
+    let target ← asOptComps (← field op "target")
+    let sp := findModuleSpecFast env name
+    let entered : Option Path := sp.bind fun s => if star then importOriginAbs m s else specAbs m s
+    let ownInit : Bool := match sp with
+      | some { origin := some (.file _ rel), .. } => rel.getLast? == some initPy
+      | _ => false
+    let spec : Json := match Spec.pyResolveName (Spec.packageOf name ownInit) level target with
+      | .ok r => Json.mkObj [("ok", jComps r)]
+      | .error e => Json.mkObj [("err", errStr e)]
+    let head : List (String × Json) := [("located", jSpecM M sp), ("entered", jAbs entered), ("spec", spec)]
+    match entered with
+    | none => return (Json.mkObj (head ++ [("base", Json.null), ("abs", Json.null), ("found", Json.null)]), memo)
+    | some p =>
+      match nameOfAbs env p with
+      | none => return (Json.mkObj (head ++ [("base", Json.null), ("abs", Json.null), ("found", Json.null)]), memo)
+      | some base =>
+        let isInit := p.getLast? == some initPy
+        let (a, memo') := deriveAbsM memo isInit base target level
+        return (Json.mkObj (head ++ [("base", jComps base), ("abs", jComps a),
+                                      ("found", jFoundM M (findModuleNameAndSpec env a))]), memo')
   | _ => .error s!"unknown locator op {k}"
 
-def steps (env : Env) : Memo → List Json → R (List Json)
+def steps (env : Env) (M : Option Mounts) : Memo → List Json → R (List Json)
   | _, [] => .ok []
   | m, op :: rest => do
-    let (o, m') ← step env m op
-    return o :: (← steps env m' rest)
+    let (o, m') ← step env M m op
+    return o :: (← steps env M m' rest)
 
 /-- op `locator`: a file system, the stdlib classification table, and a sequence of ops. -/
 def handle (payload : Json) : R Json := do
   let env ← parseEnv payload
   let ops ← asArr (← field payload "ops")
-  return jList (← steps env [] ops)
+  return jList (← steps env (← parseMounts payload) [] ops)
 
 /-! ### op `import_walk`: the whole walk over a project (RattrModel/ImportWalk.lean) -/
 
@@ -138,7 +205,20 @@ def parseFile (j : Json) : R File := do
 def dotted (d : Dotted) : String := ".".intercalate (d.map String.ofList)
 
 open Rattr.Walk in
-def jCur (c : Cur) : Json := Json.mkObj [("abs", Json.bool c.abs), ("rel", jComps c.path)]
+def jCur (c : Cur) : Json :=
+  if c.out then Json.mkObj [("ext", Json.str (absStr c.path))]
+  else Json.mkObj [("abs", Json.bool c.abs), ("rel", jComps c.path)]
+
+open Rattr.Walk in
+/-- optional `phys`: rows `[path as spelled, directory segments of the resolved path, its stem]` -/
+def parsePhys (payload : Json) : R (Dict Locator.Path Cur) :=
+  match payload.getObjVal? "phys" with
+  | .error _ => .ok []
+  | .ok rows => do
+    (← asArr rows).mapM fun row => do
+      match (← asArr row) with
+      | [p, d, st] => return ((← asComps p), { abs := true, dir := (← asComps d), stem := (← asStr st).toList, out := true })
+      | _ => .error "bad phys row"
 
 open Rattr.Walk in
 def jSym (s : Sym) : Json :=
@@ -174,7 +254,8 @@ open Rattr.Walk in
 def handleWalk (payload : Json) : R Json := do
   let env ← parseEnv payload
   let files ← (← asArr (← field payload "files")).mapM parseFile
-  let P : Proj := { env := env, rootComps := (← asComps (← field payload "rootComps")), files := files }
+  let P : Proj := { env := env, rootComps := (← asComps (← field payload "rootComps")), files := files,
+                    phys := (← parsePhys payload) }
   let tgt ← parseFile (← field payload "target")
   let fuel ← asNat (← field payload "fuel")
   let out := run P fuel tgt
